@@ -176,7 +176,32 @@ def r5(ctx, prog):
     ctx.check(R, ok, f.where(), "page->reserved = page_size / block_size (stored once, after page_size is known)", key="C01.R5:reserved")
     bst = [(a, rhs) for a, l, rhs, op in f.field_stores("block_size")]
     ctx.check(R, len(bst) == 1 and rl.var_of(f, bst[0][1]) == bs_p, f.where(), "page->block_size = block_size (the divisor)", key="C01.R5:block_size")
-    ctx.floor(R, 4)
+    # the start and the size that _mi_segment_page_start_from_slice reports describe the same area: start = pstart + o and
+    # *page_size = psize - o for one and the same offset o (otherwise `reserved` counts blocks that lie beyond the page)
+    g = prog.fn("_mi_segment_page_start_from_slice")
+    rets = [r for r in g.all(kind="ReturnStmt") if "val" in g.nodes[r]]
+    outp = next((g.param_id(k) for k, p_ in enumerate(g.d["params"]) if p_["t"].replace(" ", "") == "size_t*"), None)
+    sizes = [rhs for a, lhs, rhs, op in g.stores() if op == "=" and rhs is not None and g.nodes[g.strip(lhs)]["k"] == "UnaryOperator" and g.nodes[g.strip(lhs)]["op"] == "*"
+             and rl.var_of(g, g.nodes[g.strip(lhs)]["c"][0]) == outp]
+    ok = len(rets) == 1 and len(sizes) == 1
+    detail = ""
+    if ok:
+        rj, sj = g.strip(g.nodes[rets[0]]["val"]), g.strip(sizes[0])
+        # a returned local that merely names pstart + o is expanded by canon
+        pm = {d: "$%d" % k for k, d in enumerate(g.pids)}
+        for _, dd in rl.local_decl(g, lambda dd: "init" in dd):
+            if g.mentions_field(dd["init"], "slice_count"):
+                pm[dd["d"]] = "psize"
+            elif "*" in dd["t"] and g.mentions_decl(dd["init"], g.param_id(0)):
+                pm[dd["d"]] = "pstart"
+        rt, st = rl.canon(g, rj, pm).replace(" ", ""), rl.canon(g, sj, pm).replace(" ", "")
+        import re
+        mr = re.fullmatch(r"\((\w+)\+(\w+)\)", rt)
+        ms = re.fullmatch(r"\((\w+)-(\w+)\)", st)
+        ok = bool(mr) and bool(ms) and ms.group(2) in (mr.group(1), mr.group(2))
+        detail = "start = %s, *page_size = %s" % (rt, st)
+    ctx.check(R, ok, g.where(), "page start and page size use the same offset (%s)" % detail, key="C01.R5:area")
+    ctx.floor(R, 5)
 
 
 def r6(ctx, prog):
